@@ -35,6 +35,7 @@ type FuncContract struct {
 	Assumes    []*Clause // type-level facts about inputs that callers are not asked to establish (listed as assumptions)
 	Ensures    []*Clause
 	Invariants map[int][]*Clause
+	EarlyExits map[int][]*Clause // loop N earlyexit expr: expr holds whenever loop N is left other than through its header (break, return, goto)
 	AtCalls    []*Clause
 	AfterCalls []*Clause // assumptions about results of matching (external) calls: after call <pat> assume <expr>
 	Assigns    []string
@@ -215,7 +216,7 @@ func (cs *Contracts) loadContractFile(path, pkgPath string) error {
 				}
 				pkg, name = parts[0], strings.TrimSpace(parts[1])
 			}
-			cur = &FuncContract{PkgPath: pkg, Name: name, Invariants: map[int][]*Clause{}, File: path, Line: rc.line}
+			cur = &FuncContract{PkgPath: pkg, Name: name, Invariants: map[int][]*Clause{}, EarlyExits: map[int][]*Clause{}, File: path, Line: rc.line}
 			if _, dup := cs.Funcs[fkey(pkg, name)]; dup {
 				return fmt.Errorf("%s:%d: duplicate contract for %s", path, rc.line, name)
 			}
@@ -242,12 +243,21 @@ func (cs *Contracts) loadContractFile(path, pkgPath string) error {
 				return fmt.Errorf("%s:%d: loop outside func", path, rc.line)
 			}
 			parts := strings.SplitN(rest, " ", 3)
-			if len(parts) < 3 || parts[1] != "invariant" {
-				return fmt.Errorf("%s:%d: expected 'loop N invariant expr'", path, rc.line)
+			if len(parts) < 3 || (parts[1] != "invariant" && parts[1] != "earlyexit") {
+				return fmt.Errorf("%s:%d: expected 'loop N invariant expr' or 'loop N earlyexit expr'", path, rc.line)
 			}
 			n, err := strconv.Atoi(parts[0])
 			if err != nil {
 				return fmt.Errorf("%s:%d: bad loop ordinal", path, rc.line)
+			}
+			if parts[1] == "earlyexit" {
+				c, err := mk("earlyexit", parts[2])
+				if err != nil {
+					return err
+				}
+				c.Loop = n
+				cur.EarlyExits[n] = append(cur.EarlyExits[n], c)
+				break
 			}
 			c, err := mk("invariant", parts[2])
 			if err != nil {
@@ -301,6 +311,9 @@ func (cs *Contracts) loadContractFile(path, pkgPath string) error {
 				all = append(all, cur.Ensures...)
 				all = append(all, cur.AtCalls...)
 				for _, v := range cur.Invariants {
+					all = append(all, v...)
+				}
+				for _, v := range cur.EarlyExits {
 					all = append(all, v...)
 				}
 			}
